@@ -404,6 +404,7 @@ def run(rep, tier):
         rep.call(window_clamp, rep, prog, "C01.window-clamp")
         rep.call(formulas.coefficients_formula, rep, prog, "C01.formula")
         rep.call(formulas.quantise, rep, prog, "C01.quantise")
+        rep.call(formulas.quantised_untouched, rep, prog, "C01.coefficients-untouched")
         rep.call(dispatch_rules.precision_reach, rep, prog, "C01.precision-reach")
         from ..engines import siblings
         rep.call(siblings.forwarded_args, rep, prog, "C01.forwarded-options")
